@@ -8,6 +8,7 @@
    "x","y".  The module SHAPES are an enumerated configuration (-DH_SHAPES=..., 6 numbers: shape of x and y in
    M1, M2, M3); each module is then "finished" by the real add_item calls a front end would make.
      shape 0 nothing | 1 `export n` + data n | 2 `export n` + empty func n | 3 `import n` | 4 `forward n` + local empty func n
+           | 5 as 1 with an UNNAMED data item following n (a two-item data section: the name denotes the section start)
    SYMBOLIC: the history = H_NSTEPS steps, each one of 7: load M1|M2|M3, load_external x|y (a fresh address every
    time), link (resolver NULL | resolver that knows only "y"); and the redefinition permission.  Every check is made
    when a step completes, so histories of exactly H_NSTEPS steps cover all shorter ones.  Explored with
@@ -48,7 +49,7 @@
 #ifndef H_SHAPES
 #define H_SHAPES 1, 0, 3, 0, 0, 0
 #endif
-enum { S_NONE, S_XDATA, S_XFUNC, S_IMPORT, S_FWDDEF };
+enum { S_NONE, S_XDATA, S_XFUNC, S_IMPORT, S_FWDDEF, S_XSECT };
 static const int h_shape[3][2] = {H_SHAPES};
 
 /* ---------------- static state ---------------- */
@@ -63,7 +64,7 @@ static struct MIR_item h_items0[4], h_items1[4], h_items2[4];
 static struct MIR_item *const h_items[3] = {h_items0, h_items1, h_items2};
 static struct MIR_item h_ditems[H_ARR]; /* data item of name n in module k: h_ditems[2 * k + n] */
 static struct MIR_module h_mod[3];
-static struct MIR_data h_data[3][2];
+static struct MIR_data h_data[3][2], h_data2[3][2]; /* h_data2: the unnamed follower of shape 5; its item is h_ditems[6 + 2 * k + n] */
 static struct MIR_func h_func[3][2];
 static const char *h_nm[2];                       /* the interned (unique) strings "x", "y" */
 static const char h_lit[2][2] = {"x", "y"};       /* what a client passes to MIR_load_external: any C string */
@@ -139,8 +140,8 @@ static void h_build_module (int k) {
     else { a = h_new_item (k, 2 * n, MIR_export_item); a->u.export_id = h_nm[n]; }
     /* source order: `export x` / `forward x` BEFORE a function (add_item replaces the declaration by the definition in the table),
        `export x` AFTER a data definition (add_item marks the definition): both orders of the front ends are represented */
-    if (s != S_XDATA) H_ASSERT (add_item (ctx, a) == a, "declaration item entered into the module");
-    if (s == S_XDATA) {
+    if (s != S_XDATA && s != S_XSECT) H_ASSERT (add_item (ctx, a) == a, "declaration item entered into the module");
+    if (s == S_XDATA || s == S_XSECT) {
       d = h_new_item (k, 2 * n + 1, MIR_data_item);
       d->u.data = &h_data[k][n];
       h_data[k][n].name = h_nm[n]; h_data[k][n].el_type = MIR_T_I64; h_data[k][n].nel = 1;
@@ -153,7 +154,14 @@ static void h_build_module (int k) {
     }
     if (d != NULL) {
       H_ASSERT (add_item (ctx, d) == d, "definition entered into the module");
-      if (s == S_XDATA) H_ASSERT (add_item (ctx, a) == a, "export after the definition entered into the module");
+      if (s == S_XSECT) { /* the unnamed follower: same section */
+        MIR_item_t d2 = &h_ditems[6 + 2 * k + n];
+        d2->data = NULL; d2->module = &h_mod[k]; d2->item_type = MIR_data_item; d2->ref_def = NULL; d2->addr = NULL; d2->export_p = FALSE; d2->section_head_p = FALSE;
+        d2->u.data = &h_data2[k][n];
+        h_data2[k][n].name = NULL; h_data2[k][n].el_type = MIR_T_I64; h_data2[k][n].nel = 1;
+        H_ASSERT (add_item (ctx, d2) == d2, "unnamed follower entered into the module");
+      }
+      if (s == S_XDATA || s == S_XSECT) H_ASSERT (add_item (ctx, a) == a, "export after the definition entered into the module");
       H_ASSERT (a->ref_def == d, "export/forward declaration chained to its definition");
       H_ASSERT (d->export_p == (s != S_FWDDEF), "definition is marked exported exactly when an export was declared");
     }
@@ -192,9 +200,10 @@ static void h_step_load (int k) {
   for (int n = 0; n < 2; n++) {
     int s = h_shape[k][n];
     MIR_item_t d = h_def[k][n];
-    if (s == S_XDATA || s == S_XFUNC || s == S_FWDDEF) H_ASSERT (d->addr != NULL, "a loaded definition has an address");
+    if (s == S_XDATA || s == S_XFUNC || s == S_FWDDEF || s == S_XSECT) H_ASSERT (d->addr != NULL, "a loaded definition has an address");
+    if (s == S_XSECT) H_ASSERT (h_ditems[6 + 2 * k + n].addr == (char *) d->addr + 8, "the unnamed follower lies directly behind the named item");
     if (s == S_XFUNC || s == S_FWDDEF) H_ASSERT (h_thunk_index (d->addr) >= 0 && h_thunk_target[h_thunk_index (d->addr)] == (void *) undefined_interface, "a loaded function is reached through its own thunk, not yet callable");
-    if (s == S_XDATA || s == S_XFUNC) {
+    if (s == S_XDATA || s == S_XFUNC || s == S_XSECT) {
       if (h_map[n].kind == D_MIR && h_map[n].func_p && s == S_XFUNC) h_w_redef_ok = 1;
       h_map[n].kind = D_MIR; h_map[n].addr = d->addr; h_map[n].def = d; h_map[n].func_p = s == S_XFUNC; h_map[n].gen++;
     }
